@@ -711,10 +711,17 @@ func (f *FuncCFG) ReachingDefs(pt Point, v types.Object) (defs []reachingDef, fr
 						if len(as.Rhs) == len(as.Lhs) {
 							rhs = as.Rhs[li]
 						}
+						if as.Tok != token.ASSIGN && as.Tok != token.DEFINE {
+							rhs = nil // x += e: the new value is not e (nil Rhs = an update, not a plain definition)
+						}
 						defs = append(defs, reachingDef{Point{b, i}, rhs})
 						return
 					}
 				}
+			}
+			if ids, ok := b.Nodes[i].(*ast.IncDecStmt); ok && objOfIdent(f.Info, ids.X) == v {
+				defs = append(defs, reachingDef{Point{b, i}, nil})
+				return
 			}
 		}
 		if b == f.G.Blocks[0] {
@@ -1144,6 +1151,9 @@ func (f *FuncCFG) resolve(e ast.Expr, pt Point, intoHelpers bool) (ast.Expr, Poi
 			break
 		}
 		defs, fromEntry := f.ReachingDefs(pt, obj)
+		if len(defs) == 1 && !fromEntry && defs[0].Rhs == nil {
+			break // the variable was updated in place (x++, x += e): it stands for itself
+		}
 		if len(defs) == 1 && !fromEntry {
 			// one result of a tuple assignment from a spliced helper with a single return site: the
 			// matching result expression of that return
@@ -3227,6 +3237,10 @@ func (f *FuncCFG) Origins(e ast.Expr, pt Point) []originVal {
 			}
 		}
 		for _, d := range defs {
+			if d.Rhs == nil {
+				out = append(out, originVal{e, pt})
+				continue
+			}
 			as, isAs := f.nodeAt(d.At).(*ast.AssignStmt)
 			if isAs && len(as.Rhs) == 1 && len(as.Lhs) > 1 && !f.CallsOpaque {
 				if c, isCall := ast.Unparen(as.Rhs[0]).(*ast.CallExpr); isCall {
